@@ -50,7 +50,7 @@ def run(cx):
         "the Coq model abstracts numeric payloads to identifiers and covers export (run sort, property-vertex duplication, tangent copy) and the "
         "import's merge map / run->triRef assignment; the rest of the import pipeline is only exercised by the harness",
         "normal channels (runs flagged hasNormals) are not compared bit-for-bit (renormalisation rounding is allowed by the property)",
-        "programs are drawn from 21 templates with random offsets; meshes of a few hundred triangles",
+        "programs are drawn from 26 templates with random offsets; meshes of a few hundred triangles",
     ]
     # the importer's rung table, regenerated from src/impl.h (shared with C09): theorem export_tables_accepted
     # needs it to contain no rung that rejects a run table the exporter can emit
@@ -83,13 +83,16 @@ def run(cx):
     m = re.search(r"accepts_export_current\s*=\s*(true|false)", log)
     accepts = (m.group(1) == "true") if m else None
     cx.cov["accepts_export_tables(Gen.Ladder.table)"] = accepts
+    m = re.search(r"import_honours_backside_current\s*=\s*(true|false)", log)
+    honours = (m.group(1) == "true") if m else None
+    cx.cov["import_honours_backside_without_transform(Gen.Ladder)"] = honours
     m = re.search(r"obj_format_current\s*=\s*(true|false)", log)
     obj_format_ok = (m.group(1) == "true") if m else None
     cx.cov["obj_format_ok(Gen.ObjPrecision)"] = obj_format_ok
     exe = vp.build_harness("c08_roundtrip", "seq", link_lib=True)
     rng = random.Random(cx.seed * 8191 + 8)
     n = cx.pick(300, 6000)
-    lines = ["C %d %d %d" % (i, i if i < 32 else rng.randrange(21), rng.randrange(1 << 30)) for i in range(n)]
+    lines = ["C %d %d %d" % (i, i if i < 32 else rng.randrange(26), rng.randrange(1 << 30)) for i in range(n)]
     # LARGE re-imports: the exporter's mesh padded with unused vertices so that the importer's vertex count straddles
     # 2^18 (the only size threshold on the import/export path: CreateHalfedges switches from sorting to bucketing there;
     # the other size constants in impl.cpp/sort.cpp/impl.h are autoPolicy sequential/parallel cut-offs).  Templates with
@@ -100,6 +103,10 @@ def run(cx):
         big += [(t, K + 7) for t in range(21)] + [(6, 2 * K + 1), (7, 3 * K)]
     for j, (tmpl, pad) in enumerate(big):
         lines.append("C %d %d %d %d" % (n + j, tmpl, 4242 + j, pad))
+    # hand-edited exports: runTransform dropped (optional field; absent = identity) from exports whose run transforms are all
+    # the identity (templates 21..25 never transform an operand; 16 has an inner part and identity transforms too)
+    for tmpl in (21, 22, 23, 24, 25, 16, 9):
+        lines.append("C %d %d %d 0 1" % (len(lines), tmpl, 777 + tmpl))
     kl = lambda l: l.split()[1]
     ko = lambda l: l.split()[1] if l.startswith("C ") else None
     out, crashes = vp.run_cases(exe, lines, kl, ko, timeout=1500, max_restarts=4)
@@ -146,6 +153,14 @@ def run(cx):
                              {"case": case, "line": l})
             continue
         bad = [f for f in FIELDS if d.get(f, 1) != 1]
+        dist["identity_only_backside"] = dist.get("identity_only_backside", 0) + (d["prog"] in (21, 22, 23, 24, 25))
+        if d.get("dropped_rt") == 1:
+            dist["runtransform_dropped"] = dist.get("runtransform_dropped", 0) + 1
+            if "runs_ok" in bad or "props_ok" in bad:
+                cx.violation("runflags-lost-without-runtransform",
+                             "a MeshGL64 with runFlags but no runTransform (all transforms identity) is re-imported with different run flags "
+                             "(back-side / normals bit lost)", {"case": case, "program": d["prog"], "line": l})
+                bad = [f for f in bad if f not in ("runs_ok", "props_ok")]
         for f in bad:
             per_field_fail[f] = per_field_fail.get(f, 0) + 1
         others = [f for f in bad if f not in ("tangent", "refine_same")]
@@ -179,6 +194,14 @@ def run(cx):
             cx.broke("obligation:accepts_export_tables", "Gen.Ladder.table contains a rung that rejects run tables the exporter emits "
                      "(or the evaluation did not run: %r) and no concrete program was found" % accepts)
         cx.notes.append("accepts_export_tables Gen.Ladder.table = %r" % accepts)
+    # obligation of theorem runs_roundtrip_without_runtransform: the importer honours the back-side bit when runTransform is absent
+    cx.obligations += 1
+    if honours and translate_ok:
+        cx.discharged += 1
+    elif translate_ok:
+        if not any(k == "runflags-lost-without-runtransform" for k, _, _ in cx.violations):
+            cx.broke("obligation:import_honours_backside_without_transform", "the importer's run loop ignores the back-side bit of runFlags when "
+                     "runTransform is absent (%r) and no export demonstrating the loss was found" % honours)
     # obligation of theorem obj_decimal_digits_determine_double on the constants read from WriteOBJ
     cx.obligations += 1
     if obj_format_ok and obj_ok_translate:
@@ -187,7 +210,7 @@ def run(cx):
         if not any(k.startswith("obj-") for k, _, _ in cx.violations):
             cx.broke("obligation:obj_format_ok", "WriteOBJ's precision/notation does not guarantee 17 significant digits (%r) and no lossy round trip was found" % obj_format_ok)
     cx.cov.update({"evaluations": len(lines), "distinct_nontrivial": nontriv,
-                   "rule": "seeded programs from 21 templates; non-trivial = >= 2 runs or merge vectors (property seam) or tangents or empty runs; distinct by (template, triangles, runs, merges)",
+                   "rule": "seeded programs from 26 templates; non-trivial = >= 2 runs or merge vectors (property seam) or tangents or empty runs; distinct by (template, triangles, runs, merges)",
                    "distribution": dist, "fields_compared": FIELDS, "field_failures": per_field_fail,
                    "obj_roundtrips_lossy_below_1e-3": obj_lossy, "obj_roundtrips_lossy_other": obj_other})
     for l in out.splitlines()[:3]:
